@@ -9,12 +9,13 @@
    non-empty, no QoS>0 traffic.  Model only, no proofs.
 
    Things of the source kept on purpose:
-   * reconnect() sets _state = CONNECTING before the socket is created, so after a refused FIRST
-     attempt the first loop of loop_forever (which tests _state == CONNECT_ASYNC) is left after its
-     _reconnect_wait(); the inner _loop() then fails on the missing socket and the main loop waits
-     a SECOND time before it reconnects;
-   * the nested reconnect() of the protocol downgrade runs inside _loop(), outside the
-     try/except OSError of loop_forever;
+   * reconnect() sets _state = CONNECTING before the socket is created; after a refused FIRST attempt
+     with retry_first_connection the first loop of loop_forever puts the state back to CONNECT_ASYNC
+     (unless on_connect_fail changed it) and so retries itself after ONE _reconnect_wait()
+     [before fix 6a826ba it was left and the main loop waited a second time];
+   * the nested reconnect() of the protocol downgrade runs inside _loop(); its OSError is caught in
+     _handle_connack and becomes MQTT_ERR_CONN_LOST without any callback [before fix d2253bf it left
+     loop_forever];
    * _loop_rc_handle turns every error into rc 0 when the state is DISCONNECTING/DISCONNECTED;
    * `_thread_terminate` turns the loop result into MQTT_ERR_NOMEM (1) once the out queue is empty;
    * _reconnect_wait updates the delay even when it does not sleep at all. *)
@@ -53,6 +54,8 @@ Inductive pc := PcFirst | PcInner | PcAfterInner (rc : Z) | PcAfterWait (rc : Z)
 Inductive bev :=
 | EvAttempt (t : Z) (immediate : bool)        (* _create_socket called *)
 | EvFail (t : Z)                              (* attempt failed / connection lost, noticed at t *)
+| EvFirstFail (t : Z)                         (* the same inside the first-connection loop of loop_forever
+                                                 (retried by that loop, whatever reconnect_on_failure says) *)
 | EvAccepted (t : Z)
 | EvDowngrade (t : Z)
 | EvWait (t delay slept : Z)                  (* one _reconnect_wait call *)
@@ -150,7 +153,7 @@ Definition do_reconnect (imm : bool) (s : bst) : rcres :=
   let e := [EvAttempt (b_now s) imm] in
   match b_script s with
   | [] => RcEnd s1 e
-  | Refused :: r => RcFail (set_script r s1) (e ++ [EvFail (b_now s)])
+  | Refused :: r => RcFail (set_script r s1) e
   | o :: r => RcOk (set_sock (Pending o) (set_script r s1)) e
   end.
 
@@ -205,7 +208,10 @@ Definition read_pending (cfg : config) (o : outcome) (s : bst) : lres :=
         if c_rof cfg then
           match do_reconnect true (set_p311 false s) with
           | RcOk s1 e => LRet 0 s1 (EvDowngrade (b_now s) :: e)
-          | RcFail s1 e => LRaise s1 (EvDowngrade (b_now s) :: e)
+          | RcFail s1 e =>
+              (* the OSError is caught in _handle_connack: MQTT_ERR_CONN_LOST; loop_read sees that the
+                 socket was replaced and returns it without _loop_rc_handle (no callback, state CONNECTING) *)
+              LRet 7 s1 (EvDowngrade (b_now s) :: e ++ [EvFail (b_now s)])
           | RcEnd s1 e => LEnd s1 (EvDowngrade (b_now s) :: e)
           end
         else failed cfg 2 s
@@ -246,10 +252,15 @@ Definition step (cfg : config) (p : pc) (s : bst) : list bev * pc * bst :=
         match do_reconnect false s with
         | RcOk s1 e => (e, PcFirst, s1)
         | RcEnd s1 e => (e, PcDone REnd, s1)
-        | RcFail s1 e =>
+        | RcFail s1 e0 =>
+            let e := e0 ++ [EvFirstFail (b_now s)] in
             let (s2, e2) := callback cfg PConnectFail 0 s1 in
             if c_retry_first cfg
-            then let (s3, e3) := reconnect_wait cfg s2 in (e ++ e2 ++ e3, PcFirst, s3)
+            then
+              (* stay in the first-connection loop: reconnect() left the state at CONNECTING; it is put
+                 back to CONNECT_ASYNC unless on_connect_fail changed it (disconnect()) *)
+              let s2' := match b_cs s2 with BConnecting => set_cs BAsync s2 | _ => s2 end in
+              let (s3, e3) := reconnect_wait cfg s2' in (e ++ e2 ++ e3, PcFirst, s3)
             else (e ++ e2, PcDone RRaise, s2)
         end
       else ([], PcInner, s)
@@ -269,7 +280,8 @@ Definition step (cfg : config) (p : pc) (s : bst) : list bev * pc * bst :=
       else match do_reconnect false s with
            | RcOk s1 e => (e, PcInner, s1)
            | RcEnd s1 e => (e, PcDone REnd, s1)
-           | RcFail s1 e => let (s2, e2) := callback cfg PConnectFail 0 s1 in (e ++ e2, PcInner, s2)
+           | RcFail s1 e => let (s2, e2) := callback cfg PConnectFail 0 s1 in
+                            (e ++ EvFail (b_now s) :: e2, PcInner, s2)
            end
   | PcDone _ => ([], p, s)
   end.
@@ -302,7 +314,7 @@ Definition delay_at (mn mx : Z) (i : nat) : Z := Z.min (mn * 2 ^ Z.of_nat i) mx.
 Record gst := mkg { g_i : nat; g_pend : option Z; g_dg : option Z }.
 Definition gaps_step (mn mx : Z) (g : gst) (e : bev) : option gst :=
   match e with
-  | EvFail t => Some (mkg (g_i g) (Some t) None)
+  | EvFail t | EvFirstFail t => Some (mkg (g_i g) (Some t) None)
   | EvAccepted _ => Some (mkg 0%nat (g_pend g) None)
   | EvDowngrade t => Some (mkg (g_i g) (g_pend g) (Some t))
   | EvAttempt t true =>
@@ -331,7 +343,7 @@ Definition gaps_ok (mn mx : Z) (tr : list bev) : bool :=
 Record wst := mkw { w_j : nat; w_pend : option (Z * Z * nat) }.     (* (tf, total delay, waits) *)
 Definition waits_step (mn mx : Z) (w : wst) (e : bev) : option wst :=
   match e with
-  | EvFail t => Some (mkw (w_j w) (Some (t, 0, 0%nat)))
+  | EvFail t | EvFirstFail t => Some (mkw (w_j w) (Some (t, 0, 0%nat)))
   | EvAccepted _ => Some (mkw 0%nat (w_pend w))
   | EvWait t d slept =>
       if (d =? delay_at mn mx (w_j w)) && (mn <=? d) then
@@ -351,8 +363,9 @@ Definition waits_step (mn mx : Z) (w : wst) (e : bev) : option wst :=
 Definition waits_ok (mn mx : Z) (tr : list bev) : bool :=
   match chk (waits_step mn mx) (mkw 0%nat None) tr with Some _ => true | None => false end.
 
-(* C09.3: once the application acted, or after the first failure with reconnect_on_failure off,
-   no connection attempt follows *)
+(* C09.3: once the application acted, or after the first failure / loss with reconnect_on_failure off
+   (failures of the first-connection loop are governed by retry_first_connection instead), no
+   connection attempt follows *)
 Definition final_step (rof : bool) (stopped : bool) (e : bev) : option bool :=
   match e with
   | EvAct _ _ => Some true
@@ -405,6 +418,7 @@ Definition encode_bev (e : bev) : list Z :=
   match e with
   | EvAttempt t imm => [0; t; if imm then 1 else 0; 0]
   | EvFail t => [1; t; 0; 0]
+  | EvFirstFail t => [7; t; 0; 0]
   | EvAccepted t => [2; t; 0; 0]
   | EvDowngrade t => [3; t; 0; 0]
   | EvWait t d sl => [4; t; d; sl]
